@@ -10,6 +10,7 @@ import sys
 import time
 
 VERIF = os.path.dirname(os.path.dirname(os.path.abspath(__file__)))
+OUT = os.environ.get("VERIF_OUT", VERIF)  # evidence/ and replays/ go here (seed runs redirect them away from the committed evidence)
 REPO = os.environ.get("VERIF_REPO", "/repo")
 
 TRUSTED_BASE = [
@@ -100,7 +101,7 @@ class Report:
         known = load_known()
         violations = []
         known_hits = {}
-        rdir = os.path.join(VERIF, "replays", self.prop)
+        rdir = os.path.join(OUT, "replays", self.prop)
         if os.path.isdir(rdir):
             import shutil
 
@@ -143,8 +144,8 @@ class Report:
         if len(violations) > 40:
             out_lines.append(f"... {len(violations) - 40} further failing obligations not written out")
         ev = self.evidence(len(violations), known_hits)
-        os.makedirs(os.path.join(VERIF, "evidence"), exist_ok=True)
-        with open(os.path.join(VERIF, "evidence", f"{self.prop}.json"), "w") as fh:
+        os.makedirs(os.path.join(OUT, "evidence"), exist_ok=True)
+        with open(os.path.join(OUT, "evidence", f"{self.prop}.json"), "w") as fh:
             json.dump(ev, fh, indent=1, default=str)
         for ln in out_lines:
             print(ln)
